@@ -355,6 +355,16 @@ const OPT_CHARS: &[char] = &[
 ];
 
 fn random_option_string(t: &mut Tape, max: usize) -> String {
+    // one random option string in ten is long (beyond 64, 128, 255 and 1024 bytes)
+    if t.chance(26) {
+        let unit = *t.pick(&["Debug, ", "x", "é", "Clone,", "a_", "名"]);
+        let len = *t.pick(&[70usize, 130, 260, 1100]);
+        let mut s = String::new();
+        while s.len() < len {
+            s.push_str(unit);
+        }
+        return s;
+    }
     let n = t.choose(max + 1);
     (0..n).map(|_| *t.pick(OPT_CHARS)).collect()
 }
